@@ -558,4 +558,30 @@ for name in STDLIB:
     api[name] = entry
 out["stdlib"] = api
 
+# ---------------------------------------------------------------- attributes of the introspection types
+import types as _types
+
+
+def _agen():
+    async def ag():
+        yield
+    return ag
+
+
+async def _co():
+    pass
+
+_c = _co()
+_ag = _agen()()
+out["introspection_attrs"] = {
+    "co_": sorted(a for a in dir(_types.CodeType) if a.startswith("co_")),
+    "f_": sorted(a for a in dir(_types.FrameType) if a.startswith("f_")),
+    "gi_": sorted(a for a in dir(_types.GeneratorType) if a.startswith("gi_")),
+    "cr_": sorted(a for a in dir(_types.CoroutineType) if a.startswith("cr_")),
+    "ag_": sorted(a for a in dir(_types.AsyncGeneratorType) if a.startswith("ag_")),
+    "tb_": sorted(a for a in dir(_types.TracebackType) if a.startswith("tb_")),
+    "instruction": sorted(dis.Instruction._fields) + sorted(a for a in dir(dis.Instruction) if not a.startswith("_") and a not in dis.Instruction._fields),
+}
+_c.close()
+
 json.dump(out, sys.stdout)
